@@ -24,7 +24,10 @@ pub struct Built {
 
 /// a standard output script: p2wpkh, p2wsh, p2tr, p2sh or p2pkh (Transaction::blind goes through the address of the script)
 fn p2wpkh(r: &mut Rng) -> Script {
-    let v = match r.next_u32() % 5 {
+    let v = match r.next_u32() % 7 {
+        // future witness versions: v16 with the shortest and the longest program, v2
+        5 => { let n = if r.next_u32() % 2 == 0 { 2 } else { 40 }; let mut v = vec![0x60, n as u8]; v.extend(pools::rbytes(r, n)); v }
+        6 => { let mut v = vec![0x52, 0x20]; v.extend(pools::rbytes(r, 32)); v }
         0 => { let mut v = vec![0x00, 0x14]; v.extend(pools::rbytes(r, 20)); v }
         1 => { let mut v = vec![0x00, 0x20]; v.extend(pools::rbytes(r, 32)); v }
         2 => { let mut v = vec![0x51, 0x20]; v.extend(pools::rbytes(r, 32)); v }
